@@ -170,8 +170,9 @@ def submitted_equations(case):
     return eqs
 
 
-def judge_period(case, parser, ts, k):
-    """-> dict(resid_ok, deco_exact, lag_exact, exo_exact) for a period reported as solved."""
+def judge_period(case, parser, ts, k, skip=()):
+    """-> dict(resid_ok, deco_exact, lag_exact, exo_exact) for a period reported as solved.
+    Rows whose left-hand side is in `skip` are not judged (they call a function we cannot evaluate)."""
     out = {'resid_ok': True, 'deco_exact': True, 'lag_exact': True, 'exo_exact': True}
     vals = {}
     for v in ts:
@@ -189,6 +190,8 @@ def judge_period(case, parser, ts, k):
             norm = max(norm, abs(Fraction(vals[v])))
     bound = Fraction(4 * n) * (1 + Fraction(case['lam'])) * Fraction(tolerance_of(case)) * norm
     for lhs, rhs in submitted_equations(case):
+        if lhs in skip:
+            continue
         if lhs not in vals or not finite(vals[lhs]):
             out['deco_exact' if lhs in deco else 'resid_ok'] = False
             continue
@@ -239,7 +242,7 @@ def observe(case, whole=True):
     events = []
     horizon = int(case['maxtime'])
     fin = {'ev': 'Finish', 'returned': False, 'contractive': bool(case.get('contractive')), 'exc': 'none',
-           'horizon': horizon, 'whole_equal': True, 'steps': 0, 'stage': 'solve', 'exc_type': ''}
+           'horizon': horizon, 'whole_equal': True, 'steps': 0, 'stage': 'solve', 'exc_type': '', 'lens_ok': True}
     counters = {}
     use_trace = not case['funcs']
     try:
@@ -325,6 +328,7 @@ def observe(case, whole=True):
     else:
         fin['exc'] = exc_class(failed)
         fin['exc_type'] = type(failed).__name__
+    fin['lens_ok'] = bool(failed is not None or all(len(x) == horizon + 1 for x in _series(s.TimeSeries).values()))
     fin['series'] = {v: [repr(x) for x in vals][:6] for v, vals in list(_series(s.TimeSeries).items())[:8]}
     if whole:
         # the same case through SolveEquation() itself
@@ -350,7 +354,7 @@ def observe(case, whole=True):
 TLA_STEP_FIELDS = ('ev', 'k', 'sweeps', 'cap', 'horizon', 'exit', 'errNaN', 'finite', 'traced', 'resid_ok',
                    'deco_exact', 'lag_exact', 'exo_exact', 'len_sim', 'len_lag', 'len_deco', 'len_min', 'len_max',
                    'prefix_intact', 'exp_n', 'returned')
-TLA_FINISH_FIELDS = ('ev', 'returned', 'contractive', 'exc', 'horizon', 'whole_equal', 'steps')
+TLA_FINISH_FIELDS = ('ev', 'returned', 'contractive', 'exc', 'horizon', 'whole_equal', 'steps', 'lens_ok')
 
 
 def for_tla(events):
@@ -789,3 +793,248 @@ def replay_case(core, prop, focus, path):
         return 1
     print('replay: property clause holds on this case now (verdict %s)' % verdicts[0])
     return 0
+
+
+# ----------------------------------------------------------------------------------------------
+# solves harvested from the repository's own test suite (harness/pytest_harvest.py)
+# ----------------------------------------------------------------------------------------------
+
+class _Lists(object):
+    """the two parser lists judge_period needs"""
+    def __init__(self, endogenous, decoration):
+        self.Endogenous = endogenous
+        self.Decoration = decoration
+
+
+def _fl(x):
+    try:
+        return float(x)
+    except Exception:
+        return float('nan')
+
+
+def _names_in(text):
+    import re
+    return set(re.findall(r'[A-Za-z_][A-Za-z_0-9]*', text))
+
+
+def run_suite_harvest(core, timeout=1800):
+    """Runs the repository's test suite of the tree under test with the harvest plugin.
+    -> (records, wall seconds, pytest summary line).  Raises MachineryError if nothing was harvested."""
+    import json
+    import os
+    import subprocess
+    import sys
+    import time
+    repo = core.repo_path()
+    wd = core.workdir('c02_harvest')
+    path = os.path.join(wd, 'harvest.ndjson')
+    env = dict(os.environ)
+    env['PYTHONPATH'] = core.VERIF + (os.pathsep + env['PYTHONPATH'] if env.get('PYTHONPATH') else '')
+    env['SFC_REPO'] = repo
+    env['HARVEST_FILE'] = path
+    env['PYTHONDONTWRITEBYTECODE'] = '1'
+    cmd = [sys.executable, '-m', 'pytest', '-q', '-p', 'no:cacheprovider', '-p', 'harness.pytest_harvest',
+           'test', 'sfc_models']
+    t0 = time.time()
+    try:
+        try:
+            p = subprocess.run(cmd, cwd=repo, env=env, capture_output=True, text=True, timeout=timeout)
+        except subprocess.TimeoutExpired:
+            raise core.MachineryError('test-suite harvest timed out after %ds' % timeout)
+        wall = time.time() - t0
+        tail = (p.stdout.strip().splitlines() or [''])[-1]
+        if p.returncode not in (0, 1):          # 1 = some tests failed (one known failure exists); others = pytest broke
+            raise core.MachineryError('test-suite harvest: pytest exit %d\n%s\n%s' % (
+                p.returncode, '\n'.join(p.stdout.splitlines()[-15:]), p.stderr[-1500:]))
+        if not os.path.exists(path + '.done'):
+            raise core.MachineryError('test-suite harvest: the plugin did not finish (no .done marker)\n' + p.stderr[-1500:])
+        records = []
+        if os.path.exists(path):
+            with open(path) as f:
+                for line in f:
+                    if line.strip():
+                        records.append(json.loads(line))
+        if not records:
+            raise core.MachineryError('test-suite harvest: zero solves harvested (%s)' % tail)
+        return records, wall, tail
+    finally:
+        core.cleanup(wd)
+
+
+def numeric_row_sums(rows, names, vals, env):
+    """sup-norm row sums of the Jacobian of the one-sweep map `rows` (list of (lhs, rhs)) with respect
+    to the variables `names`, by central differences at `vals`.  -> (max row sum, rows that failed)"""
+    worst = 0.0
+    failed = []
+    for lhs, rhs in rows:
+        total = 0.0
+        used = _names_in(rhs)
+        try:
+            code = compile(rhs, '<row>', 'eval')
+            for v in names:
+                if v not in used or v not in vals or not finite(vals[v]):
+                    continue
+                h = 1e-6 * max(1.0, abs(vals[v]))
+                up = dict(vals)
+                dn = dict(vals)
+                up[v] = vals[v] + h
+                dn[v] = vals[v] - h
+                d = (eval(code, env, up) - eval(code, env, dn)) / (2 * h)
+                if not finite(d):
+                    raise ValueError('derivative not finite')
+                total += abs(d)
+        except Exception:
+            failed.append(lhs)
+            continue
+        worst = max(worst, total)
+    return worst, failed
+
+
+def harvested_events(rec):
+    """One harvested SolveEquation() that returned normally -> (events, info).  Only clauses that hold
+    for ANY equation block: finite values, residual of simultaneous rows (Lipschitz bound estimated
+    numerically at the solution, doubled), decorative / lagged / exogenous exactness, lengths."""
+    H = int(rec['max_time'])
+    ts = {v: [_fl(x) for x in vals] for v, vals in rec['timeseries'].items()}
+    endo = [(a, c) for a, kind, c in rec['endogenous'] if kind == 'text']
+    deco = [(a, c) for a, kind, c in rec['decoration'] if kind == 'text']
+    lag_used = [(a, c.strip()) for a, kind, c in rec['lagged'] if kind == 'text']
+    info = {'test': rec['test'], 'source': 'equation_string', 'skipped_rows': [], 'notes': []}
+    unknown_fns = [f for f in rec['functions'] if f not in FUNCS]
+    # --- the submitted system: the text as the tree's own parser reads it, without reduction
+    eqs = lags = None
+    exo_text = {}
+    try:
+        from sfc_models.equation_parser import EquationParser
+        import warnings
+        with warnings.catch_warnings():
+            warnings.simplefilter('ignore')
+            p = EquationParser()
+            p.ParseString(rec['equation_string'])
+        sub_names = set(v for v, _ in p.Endogenous) | set(v for v, _ in p.Lagged) | set(v for v, _ in p.Exogenous)
+        used_names = set(v for v, _ in endo) | set(v for v, _ in deco) | set(v for v, _ in lag_used) | \
+            set(a for a, _, _ in rec['exogenous'] if a != 'k')
+        if sub_names - {'k'} == used_names and sorted((a, b.strip()) for a, b in p.Lagged) == sorted(lag_used):
+            eqs = [[v, e] for v, e in p.Endogenous]
+            lags = [[v, e.strip()] for v, e in p.Lagged]
+            exo_text = {v: e for v, e in p.Exogenous if isinstance(e, str)}
+    except Exception as e:
+        info['notes'].append('re-parse failed: ' + type(e).__name__)
+    if eqs is None:
+        # the test changed the parser's lists after parsing: judge the lists the solver used
+        info['source'] = 'parser_lists'
+        eqs = [[v, e] for v, e in endo + deco]
+        lags = [[v, e] for v, e in lag_used]
+    exos = []
+    for name, kind, content in rec['exogenous']:
+        if name == 'k':
+            continue
+        path = None
+        if kind == 'list':
+            path = [_fl(x) for x in content]
+        else:
+            text = exo_text.get(name, content)
+            try:
+                val = eval(text, dict(MATH_ENV))
+                if isinstance(val, float):
+                    val = [val] * (H + 1)
+                path = [float(x) for x in list(val)]
+            except Exception:
+                info['notes'].append('exogenous path of %s not re-evaluated' % name)
+        if path is not None and len(path) >= H + 1:
+            exos.append([name, path[:H + 1]])
+    skip = set()
+    if unknown_fns:
+        for lhs, rhs in eqs + [list(x) for x in endo]:
+            if _names_in(rhs) & set(unknown_fns):
+                skip.add(lhs)
+        info['skipped_rows'] = sorted(skip)
+        info['notes'].append('rows calling user functions %s are not re-evaluated' % ','.join(unknown_fns))
+    tol = rec.get('tolerance')
+    case = new_case('harvest:' + rec['test'], eqs=eqs, lags=lags, exos=exos, maxtime=H,
+                    tol_param=tol if tol is not None else 1e-8, cap=rec['max_iterations'],
+                    reduction=rec['reduction'], funcs=[f for f in rec['functions'] if f in FUNCS])
+    lists = _Lists(endo, deco)
+    sim_names = [v for v, _ in endo]
+    env = dict(MATH_ENV)
+    for fn in case['funcs']:
+        env[fn] = FUNCS[fn]
+    events = []
+    lam_max = 0.0
+    nonexo = [v for v, _ in endo + deco + lag_used if v in ts]
+    for k in range(1, H + 1):
+        vals = {v: ts[v][k] for v in ts if len(ts[v]) > k}
+        # a simultaneous variable whose row depends on no simultaneous variable and whose value equals
+        # the previous period's bit for bit did not move during this period: its direction contributes
+        # nothing to the difference of the last two iterates
+        frozen = set(v for v, rhs in endo if not (_names_in(rhs) & set(sim_names)) and v in ts and len(ts[v]) > k
+                     and _same(ts[v][k], ts[v][k - 1]))
+        lam, failed = numeric_row_sums([r for r in endo if r[0] not in skip],
+                                       [v for v in sim_names if v not in frozen], vals, env)
+        lam_max = max(lam_max, lam)
+        case['lam'] = 2.0 * lam + 1e-6           # conservative: twice the local estimate
+        sk_rows = set(skip) | set(failed)
+        if tol is None:
+            sk_rows |= set(sim_names)
+        if failed:
+            info['skipped_rows'] = sorted(set(info['skipped_rows']) | set(failed))
+        reported = [ts[v][k] for v in nonexo if len(ts[v]) > k]
+        fin_ok = all(finite(x) for x in reported) and len(reported) == len(nonexo)
+        ev = {'ev': 'Step', 'k': k, 'sweeps': 0, 'cap': int(rec['max_iterations']), 'horizon': H,
+              'exit': 'converged', 'errNaN': not fin_ok, 'finite': bool(fin_ok), 'traced': False,
+              'resid_ok': True, 'deco_exact': True, 'lag_exact': True, 'exo_exact': True,
+              'len_sim': k + 1, 'len_lag': k + 1, 'len_deco': k + 1, 'len_min': k + 1, 'len_max': k + 1,
+              'prefix_intact': True, 'exp_n': -1, 'returned': True, 'lam': round(case['lam'], 6)}
+        ev.update(judge_period(case, lists, ts, k, skip=sk_rows))
+        events.append(ev)
+    lens_ok = all(len(x) == H + 1 for x in ts.values())
+    events.append({'ev': 'Finish', 'returned': True, 'contractive': False, 'exc': 'none', 'horizon': H,
+                   'whole_equal': True, 'steps': H, 'lens_ok': bool(lens_ok), 'exc_type': '', 'stage': 'solve'})
+    info['lam_estimate'] = round(lam_max, 6)
+    info['rows'] = {'simultaneous': len(endo), 'decorative': len(deco), 'lagged': len(lag_used), 'exogenous': len(exos)}
+    case['lam'] = round(2.0 * lam_max + 1e-6, 6)
+    return events, info, case
+
+
+def judge_harvest(rep, core, records):
+    traces = []
+    built = []
+    for i, rec in enumerate(records):
+        events, info, case = harvested_events(rec)
+        built.append((events, info, case))
+        traces.append((i, for_tla(events)))
+    verdicts, st, tr = core.validate_traces('MC_Solver_Trace', 'MC_Solver_Trace.cfg', traces,
+                                            tag=rep.prop.lower() + 'h', env={'FOCUS': 'C02'})
+    rep.traces += len(traces)
+    rep.extra['trace_validation_states'] = rep.extra.get('trace_validation_states', 0) + st
+    periods = 0
+    skipped = 0
+    by_source = {}
+    for i, rec in enumerate(records):
+        events, info, case = built[i]
+        periods += len(events) - 1
+        skipped += len(info['skipped_rows'])
+        by_source[info['source']] = by_source.get(info['source'], 0) + 1
+        summary = {'label': case['label'], 'rows': info['rows'], 'tolerance': rec.get('tolerance'),
+                   'cap': rec['max_iterations'], 'reduction': rec['reduction'], 'horizon': rec['max_time'],
+                   'lam_estimate': info['lam_estimate'], 'source': info['source'], 'notes': info['notes'],
+                   'skipped_rows': info['skipped_rows']}
+        rep.add_case(summary, rec['max_time'] >= 1 and info['rows']['simultaneous'] >= 1)
+        v = verdicts[i]
+        if v == 'ok:':
+            continue
+        kind, clause = v.split(':', 1)
+        stored = {'harvested': rec, 'observed': events, 'info': info}
+        if kind == 'property':
+            bad = [e['k'] for e in events if e['ev'] == 'Step' and not (
+                e['finite'] and e['resid_ok'] and e['deco_exact'] and e['lag_exact'] and e['exo_exact'])]
+            rep.violate(clause, '%s:suite-harvest' % clause, stored,
+                        detail='harvested from %s; periods %s; Lipschitz estimate %s' % (rec['test'], bad[:8], info['lam_estimate']))
+        else:
+            rep.add_drift(clause, {'test': rec['test'], 'observed': events[-3:], 'info': info})
+    rep.extra['harvested_solves'] = len(records)
+    rep.extra['harvested_periods'] = periods
+    rep.extra['harvested_rows_skipped'] = skipped
+    rep.extra['harvested_judged_from'] = by_source
+    return verdicts
